@@ -186,8 +186,30 @@ def tlc(module, cfg, workers=8, timeout=1800, simulate=None, seed=None, env=None
         m['error'] = txt[-3000:]
         # keep the log for inspection but never cache a failed run
         raise ToolError(f'TLC failed on {module} / {os.path.basename(cfg_path)} (rc={rc}); log: {out}')
+    m['cfgname'] = os.path.basename(cfg_path)
     json.dump(m, open(meta, 'w'))
+    _prune_cache(module, cdir, m['cfgname'], simulate)
     return m
+
+
+def _prune_cache(module, keep, cfgname, simulate):
+    """Drop superseded cache entries: older results of the same module + cfg name (the specification changed),
+    and uncached leftovers (no meta.json) of the same module older than an hour."""
+    root = os.path.join(CACHE, 'tlc')
+    for d in os.listdir(root):
+        full = os.path.join(root, d)
+        if full == keep or not d.startswith(module + '-'):
+            continue
+        mp = os.path.join(full, 'meta.json')
+        try:
+            if os.path.exists(mp):
+                mm = json.load(open(mp))
+                if mm.get('cfgname') == cfgname and cfgname != 'model.cfg' and not simulate and time.time() - os.path.getmtime(mp) > 600:
+                    shutil.rmtree(full, ignore_errors=True)
+            elif time.time() - os.path.getmtime(full) > 3600:
+                shutil.rmtree(full, ignore_errors=True)
+        except (OSError, ValueError):
+            pass
 
 
 def tail_nonreplay(path, limit=200000):
